@@ -1,6 +1,6 @@
-from dst.oracles import c01, c02, c03, c04, c05, c06, c10, c12, c13, c14, c17, c19, c20
+from dst.oracles import c01, c02, c03, c04, c05, c06, c10, c12, c13, c14, c17, c18, c19, c20
 
-ORACLES = {"C01": c01.check, "C02": c02.check, "C03": c03.check, "C04": c04.check, "C05": c05.check, "C06": c06.check, "C10": c10.check, "C12": c12.check, "C13": c13.check, "C14": c14.check, "C17": c17.check, "C19": c19.check, "C20": c20.check}
+ORACLES = {"C01": c01.check, "C02": c02.check, "C03": c03.check, "C04": c04.check, "C05": c05.check, "C06": c06.check, "C10": c10.check, "C12": c12.check, "C13": c13.check, "C14": c14.check, "C17": c17.check, "C18": c18.check, "C19": c19.check, "C20": c20.check}
 
 # C13.R5 ("keeps the bookkeeping of the other trials intact"): the C13 check also owns violations of these
 # properties' oracles when they occur after the first failure of a run
